@@ -704,6 +704,12 @@ def run(tier, seed):
 
 
 def replay(rep):
+    if 'attribute' in rep['inputs']:
+        out = name_task([rep['inputs']['attribute']])
+        if out['viol']:
+            print('VIOLATION property=%s replay=replayed' % PROP)
+            return 1
+        return 0
     flags = rep['inputs']['flags']
     code, rec, se, esc = run_cli(flags)
     print('exit=%r backend_ran=%r stderr=%r' % (code, rec is not None, se[-200:]))
